@@ -115,7 +115,12 @@ def yaml_load(stream):
 def json_load(value):
     import json
 
-    return json.loads(value)
+    try:
+        return json.loads(value)
+    except json.JSONDecodeError:
+        raise
+    except ValueError as ex:  # e.g. an integer literal beyond the int<->str conversion limit
+        raise json.JSONDecodeError(str(ex), value if isinstance(value, str) else "", 0) from ex
 
 
 def toml_load(value):
